@@ -2,6 +2,7 @@
    Property theorems only; every proof is `exact <lemma>` from proof/C18_*.v.
    Model: model/C18_Inbounds.v (socks5/server.go + txthinking/socks5 readers, http/server.go, proxymux/mux.go). *)
 From Hy Require Import model.C18_Inbounds proof.C18_Streams proof.C18_Gate proof.C18_Mux.
+From Hy Require Import lib.Harness corr.C18_Corr model.C18_Trace proof.C18_Replay.
 From Coq Require Import ZArith.
 Local Open Scope N_scope.
 
@@ -177,3 +178,46 @@ Theorem C18_no_send_on_closed_old_refuted :
   exists acts m, c18_mrun (mkVer true true false) c18_m_init acts = Some m /\ c18_get_conn m 0 = Some CPanic.
 Proof. exact old_late_register_panics. Qed.
 Print Assumptions C18_no_send_on_closed_old_refuted.
+
+(* ---- The tie of the mux model: the replay that decides whether a recorded mux history agrees with
+   the LTS (corr/C18_Corr.v [replay]: apply each stimulus, at a recorded quiescent point run the code's own
+   atomic sections until none is enabled, perform the recorded hand-offs, compare the snapshot) is SOUND.
+
+   Every accepted history is a run of c18_mstep (the code as it is now) from the initial state whose
+   visible actions - the environment's stimuli and the rendezvous hand-offs - are exactly the recorded
+   ones, in order; everything the replay inserts is one of the code's own atomic sections. *)
+Theorem C18_accepted_history_is_run : forall l, replay c18_m_init l = true ->
+  exists acts m, c18_mrun c18_now c18_m_init acts = Some m /\ filter c18_visible acts = stim_acts l.
+Proof. exact replay_sound. Qed.
+Print Assumptions C18_accepted_history_is_run.
+
+(* ... and at every recorded quiescent point that run is in a quiescent state (no own section and no
+   hand-off enabled) whose connection states, sub-listener counters and base-listener flag are the
+   recorded ones.  So C18_exactly_one_handler and C18_handed_or_closed speak about the RECORDED states:
+   mainLoop has not panicked; no recorded connection is dropped, leaked or hit by a send on a closed
+   channel; a connection recorded as closed is closed, one recorded as handed to sub-listener s is
+   handed to s in the model, was routed there by its own first byte among the listeners registered at
+   its selection, and stays with s in every continuation. *)
+Theorem C18_accepted_history_snapshot : forall l1 hs conns subs bc l2,
+  replay c18_m_init (l1 ++ StWait hs conns subs bc :: l2) = true ->
+  exists acts m,
+    c18_mrun c18_now c18_m_init acts = Some m /\
+    filter c18_visible acts = stim_acts (l1 ++ [StWait hs conns subs bc]) /\
+    c18_quiet m /\
+    map conn_code (m_conns m) = conns /\
+    map (fun x => (N.of_nat (sb_errs x), N.of_nat (sb_waiting x))) (m_subs m) = subs /\
+    m_base_closed m = bc /\
+    m_ml m <> MLPanic /\
+    forall c code, nth_error conns c = Some code ->
+      exists x, c18_get_conn m c = Some x /\ code = conn_code x /\
+        x <> CDropped /\ x <> CLeaked /\ x <> CPanic /\
+        (code = 0 -> c18_c_terminal x = false) /\
+        (code = 1 -> x = CClosed) /\
+        (forall s, code = 2 + N.of_nat s -> exists b, x = CHanded b s) /\
+        (forall b s, x = CHanded b s ->
+           (exists acts1 acts2 m1,
+              acts = acts1 ++ ASelect c :: acts2 /\ c18_mrun c18_now c18_m_init acts1 = Some m1 /\
+              c18_get_conn m1 c = Some (CByte b) /\ c18_slot m1 (c18_is_socks b) = Some s) /\
+           (forall more m', c18_mrun c18_now m more = Some m' -> c18_get_conn m' c = Some (CHanded b s))).
+Proof. exact replay_snapshot. Qed.
+Print Assumptions C18_accepted_history_snapshot.
